@@ -20,11 +20,13 @@ NAMECH = "abcdefghijklmnopqrstuvwxyzABCDEFGHIJKLMNOPQRSTUVWXYZ0123456789_"
 NAMES = ["a", "B", "Z9", "_", "0", "EngineDict", "k_1", "9a", "true", "x" * 40, "Values", "99"]
 TAGS = [b"(hwid)", b"()", b"--(.-0", b"(aalt)", b"(0)"]
 INTS = [0, 1, -1, 9, 10, -10, 99, 100, 255, 2 ** 31 - 1, -2 ** 31, 2 ** 32, 2 ** 63 - 1, -2 ** 63, 2 ** 63, 2 ** 64,
-        -2 ** 64 - 1, 10 ** 20, -10 ** 30, 1234567890123456789]
+        -2 ** 64 - 1, 10 ** 20, -10 ** 30, 1234567890123456789, 2 ** 200, -(10 ** 100), 3 ** 500]
 FLOATS = [0.0, -0.0, 1e-9, -1e-9, 5e-9, 4.9e-9, 5.1e-9, 1e-8, 0.999999999, 0.99999999, 0.999999995, -0.999999999,
           -0.5, 0.5, 0.1, 0.05, 0.00006, 1.0, -1.0, 10.0, 100.0, 10.5, 1e20, -1e20, 123456789.123456789, -47.55428,
           0.333, 0.7, 1e15, 2.5e-8, 1.5e-8, 0.30000000000000004, 1 / 3, 2 / 3, 65536.00000001, 1e22, 3.0e-5, 1.00000001,
-          9.99999999, 99999999.99999999, 0.000000015, 1e-300, -1e-300, 4.35, 1.005]
+          9.99999999, 99999999.99999999, 0.000000015, 1e-300, -1e-300, 4.35, 1.005,
+          # beyond 1e16: '%.8f' prints every integer digit of the double
+          1e16, 9007199254740993.0, 1.2345678901234567e17, -3.5e18, 1e23, 1e100, 1.7976931348623157e308, 2.0 ** 45, 2.0 ** 45 + 0.0078125]
 
 
 # ------------------------------------------------------------------ implementation access
@@ -711,6 +713,88 @@ def embedded_check(ck, blobs):
         logging.disable(logging.NOTSET)
 
 
+# ------------------------------------------------------------------ layouts the library did not write
+DIV = (32, 10, 9)
+
+
+def token_spans(data):
+    """(start, end, is_string) of every token, found with the implementation's tokenizer positions"""
+    m = ED()
+    tk = m.Tokenizer(bytes(data))
+    spans = []
+    while True:
+        pos = tk.index
+        try:
+            tok, kind = next(tk)
+        except StopIteration:
+            break
+        except Exception:
+            return None
+        # the tokenizer skips leading dividers inside __next__: locate the token itself
+        start = bytes(data).find(tok, pos)
+        spans.append((start, start + len(tok), kind == m.EngineToken.STRING))
+    return spans
+
+
+def relayout(rng, data):
+    """the same tokens with other white space: any dividers before each token, none where none is needed
+    (start of data, after a string token) with probability 1/2; None if the text cannot be tokenized"""
+    spans = token_spans(data)
+    if spans is None:
+        return None
+    out = bytearray()
+    prev_str = True
+    for s, e, is_str in spans:
+        n = rng.choice([0, 0, 1, 1, 2, 5]) if prev_str else rng.choice([1, 1, 2, 3, 7])
+        out += bytes(rng.choice(DIV) for _ in range(n))
+        out += bytes(data[s:e])
+        prev_str = is_str
+    out += bytes(rng.choice(DIV) for _ in range(rng.choice([0, 0, 1, 3])))
+    return bytes(out)
+
+
+def ws_edits(rng, blob, limit):
+    """single-byte white-space edits of a text: (op, pos, byte, expect_same)
+    op 0 deletes the divider at pos, op 1 inserts a divider before pos.  expect_same: the edit cannot change the token
+    sequence (insertion at a token boundary; deletion of a divider that is not the only one between two tokens, or that
+    follows a string token / precedes the first token / follows the last)"""
+    spans = token_spans(blob)
+    if spans is None:
+        return []
+    starts = {s for s, _, _ in spans}
+    ends = {e for _, e, _ in spans}
+    str_ends = {e for _, e, st in spans if st}
+    first, last = spans[0][0], spans[-1][1]
+    edits = []
+    for i, c in enumerate(blob):
+        if c in DIV and not any(s <= i < e for s, e, _ in ()):  # dividers inside strings are excluded below
+            pass
+    inside = bytearray(len(blob) + 1)
+    for s, e, _ in spans:
+        for k in range(s + 1, e):
+            inside[k] = 1                       # positions strictly inside a token
+        inside[s] = 2                           # token start (a byte of the token sits here)
+    for i, c in enumerate(blob):
+        if c in DIV and inside[i] == 0:
+            alone = not ((i > 0 and blob[i - 1] in DIV and inside[i - 1] == 0) or (i + 1 < len(blob) and blob[i + 1] in DIV and inside[i + 1] == 0))
+            same = (not alone) or i < first or i >= last or i in str_ends
+            edits.append((0, i, 0, same))
+    for p in sorted(starts | ends):
+        edits.append((1, p, rng.choice(DIV), True))
+    for _ in range(max(4, len(edits) // 40)):    # a few insertions inside tokens: they do change the text
+        p = rng.randrange(len(blob))
+        if inside[p] == 1:
+            edits.append((1, p, rng.choice(DIV), False))
+    if limit and len(edits) > limit:
+        edits = rng.sample(edits, limit)
+    return edits
+
+
+def apply_edit(blob, e):
+    op, pos, c, _ = e
+    return blob[:pos] + blob[pos + 1:] if op == 0 else blob[:pos] + bytes([c]) + blob[pos:]
+
+
 # ------------------------------------------------------------------ generated trees embedded in a type layer
 class Hosts:
     """hosts for generated engine data: a hand-built TypeToolObjectSetting, the type-tool block of a fixture
@@ -946,7 +1030,7 @@ def _run(ck):
         ck.collect_theorems("C18.v")
     thorough = ck.tier == "thorough"
     # ---------------- trees x layouts: oracle + write / tokens / parse correspondence
-    wcases, tcases, pcases, seeds = [], [], [], []
+    wcases, tcases, pcases, seeds, relaid = [], [], [], [], []
     hosts = Hosts()
     ntree = 0
     for tag, kvs in gen_trees(ck):
@@ -970,6 +1054,18 @@ def _run(ck):
                 pcases.append(((ly, kvs), [h63_list(0, impl_parse(data, ly))]))
                 if len(data) <= 200 and (ntree % 3 == 0):
                     seeds.append(bytes(data))
+                if in_domain and len(data) <= 400 and ntree % (2 if thorough else 5) == 0:
+                    # the same tokens in a layout of our own: must read as the same tree (theorem parse_any_layout)
+                    rl = relayout(ck.rng, bytes(data))
+                    if rl is None:
+                        ck.fail("relayout-untokenizable", {"tree": jtree(t), "layout": ly}, list(data[:200]), "tokens")
+                    else:
+                        got = impl_parse(rl, ly)
+                        exp_t = [0] + canon_py(t, norm=True)
+                        if got[0] != 0 or norm_canon(got[1:]) != exp_t[1:]:
+                            ck.fail("relayout-reads-differently", {"tree": jtree(t), "layout": ly, "text": list(rl)}, got[:200], exp_t[:200])
+                        relaid.append(rl)
+                        ck.count("relayout:cases")
             else:
                 tcases.append(((ly, kvs), w))
                 pcases.append(((ly, kvs), w))
@@ -1043,6 +1139,21 @@ def _run(ck):
     for b in mal:
         p = impl_parse(b)
         ck.count("malformed:%s" % ("ok" if p[0] == 0 else "error%d" % p[0]))
+    # CPython's digit limit on the reading side (theorem int_limit_refuted); the writing side is checked on the
+    # implementation only (the model's "%d" is too slow for 4300-digit literals under vm_compute)
+    mal += [b"/a " + b"1" * 4300, b"/a " + b"1" * 4301, b"/a -" + b"7" * 4300, b"/a -" + b"7" * 4301, b"/a [ " + b"0" * 4301 + b" ]"]
+    mm = ED()
+    for z, want in ((10 ** 4300 - 1, True), (10 ** 4300, False), (-(10 ** 4300) + 1, True), (-(10 ** 4300), False)):
+        try:
+            bb = mm.Integer(z).tobytes()
+            okw = mm.Integer.frombytes(bb).value == z
+        except ValueError:
+            okw = False
+        except Exception as e:
+            okw = repr(e)
+        if okw is not want:
+            ck.fail("int-digit-limit", {"digits": len(str(abs(z)))}, okw, want)
+    mal += list(dict.fromkeys(relaid))
     raw_t = fx_t + [(list(b), [h63_list(0, impl_tokens(b))]) for b in mal]
     raw_p = fx_p + [(list(b), [h63_list(0, impl_parse(b))]) for b in mal]
     bad = ck.correspond("tokens_raw", "tok_dig", IMPORTS, raw_t, zlist, chunk=800)
@@ -1054,6 +1165,30 @@ def _run(ck):
     bad = ck.correspond("fixture_rewrite", "rewrite_dig", IMPORTS, fx_r, lambda a: "(%d, %s)" % (a[0], zlist(a[1])), chunk=800)
     for i in bad[:3]:
         ck.notes.append("fixture_rewrite differ on layout %d blob of %d bytes" % (fx_r[i][0][0], len(fx_r[i][0][1])))
+    # ---------------- single-byte white-space edits of the fixture blobs (theorems parse_whitespace_insensitive /
+    # divider_required): every divider deleted, a divider inserted at every token boundary (thorough: all edits of four
+    # blobs, a sample of the others; quick: a sample of two)
+    full = ("engine_data/TySh_1.dat", "engine_data/Txt2_3.dat", "engine_data/Txt2_4.dat", "psd_files/layers/type-layer.psd#0")
+    if thorough:
+        plan = [(nm, b, 0 if nm in full else 240) for nm, b in ublobs]
+    else:
+        plan = [(nm, b, 110) for nm, b in ublobs if nm in ("engine_data/TySh_1.dat", "engine_data/Txt2_4.dat")]
+    for bi, (nm, b, limit) in enumerate(plan):
+        base = impl_parse(b)
+        ecases = []
+        for e in ws_edits(ck.rng, b, limit):
+            eb = apply_edit(b, e)
+            if not float_model_applies(eb):
+                ck.count("ws-edit:skipped (decimal token outside the float model)")
+                continue
+            got = impl_parse(eb)
+            ck.count("ws-edit:%s:%s" % ("delete" if e[0] == 0 else "insert", "token sequence kept" if e[3] else "tokens merged or split"))
+            if e[3] and got != base:
+                ck.fail("whitespace-changes-tree", {"fixture": nm, "edit": list(e[:3])}, got[:60], "the tree of the unedited text")
+            ecases.append((e[:3], [h63_list(0, got)]))
+        bad = ck.correspond("ws_edit_%d" % bi, "ws_edit_dig %s" % zlist(b), IMPORTS, ecases, lambda a: "(%d, %d, %d)" % a, chunk=(60 if thorough else 14))
+        for i in bad[:2]:
+            ck.notes.append("ws_edit on %s differ at edit %r" % (nm, ecases[i][0]))
     # ---------------- element level: String escape / unescape on every critical string, Float text
     m = ED()
     s_cases, u_cases = [], []
@@ -1098,6 +1233,8 @@ def _run(ck):
             back = m.Float.frombytes(w).value
             if abs(back - v) > 0.5e-8 * (1 + 1e-6) + abs(v) * 2.3e-16:
                 ck.fail("float-roundtrip", {"float": v}, back, "within 0.5e-8 of the value")
+            if abs(v) >= 2.0 ** 45 and back != v:        # 7 binary places at most: '%.8f' is the exact value
+                ck.fail("float-roundtrip-big", {"float": v}, back, "exactly the value")
             if m.Float(back).tobytes() != w and not ti:
                 ck.fail("float-rewrite", {"float": v}, list(m.Float(back).tobytes()), list(w))
         except Exception as e:
@@ -1120,7 +1257,8 @@ def _run(ck):
         "Float values are modelled by (sign, magnitude in 1e-8 units, tiny flag)",
         "float(token) for tokens with more than 8 fractional digits is modelled as exact decimal half-even rounding: compared only "
         "where decimal and binary rounding provably agree (<= 15 significant digits, no tie at the 9th place)",
-        "int()/'%d' digit limit of CPython (4300 digits) and non-finite floats (inf/nan print as text that is not a token) are out of scope",
+        "CPython's 4300-digit limit of int()/'%d' is modelled (guard int_ok; reading side compared, writing side checked on the "
+        "implementation only); non-finite floats (inf/nan print as text that is not a token) are out of scope",
         "property names outside mac-roman and strings with lone surrogates cannot be written at all (UnicodeEncodeError): outside the model",
         "the theorems hold for trees of any depth; CPython's recursion limit (several hundred nested containers) is an implementation "
         "limit outside the model; explored depth: see input_distribution",
